@@ -28,7 +28,7 @@ RULE = ("programs = root kind {coro, gencoro, gen, agen} x chain of 0..N links, 
         "coroutine wrapper / plain iterator / asend..aclose awaitables) x terminal {trap = yield in a types.coroutine function, bare yield, "
         "non-frame leaf of kind {plain iterator, __bool__ False, __len__ 0, empty self-awaiting container}} x statement layout {plain, assign, multi-line, try/finally, with, with @contextmanager} x own suspension before/after "
         "the delegation; every suspension point of each program plus unstarted, exhausted and closed roots and self-extraction of a running "
-        "link; exhaustive over edge-kind paths of depth 1 and 2 (quick: every 4th depth-2 path), random chains of depth 2..4 (quick, 220 programs) / 2..6 (thorough, 9000 programs), 30% of them extracted at every suspension point on the way to the probed one (monitored run); async-zip programs: a coroutine / types.coroutine generator / async generator parent (optionally under an outer coroutine) pulling alternately from 2..3 live sibling async generators through temporary __anext__ / asend / athrow awaitables (optionally with a coroutine level inside each sibling), monitored at every suspension point of the same run; and coroutine wrappers / asend / athrow awaitables of 2..3 alternating long-lived targets as extraction roots, each dropped while its target lives on. distinct = distinct (program, stop) descriptors; "
+        "link; exhaustive over edge-kind paths of depth 1 and 2 (quick: every 4th depth-2 path), random chains of depth 2..4 (quick, 220 programs) / 2..6 (thorough, 9000 programs), 30% of them extracted at every suspension point on the way to the probed one (monitored run); asend(value) / athrow(exception carrying value) links whose value is itself stack-like (an async generator, a suspended coroutine, a suspended generator) for every parent kind at depth 1 and under every first edge at depth 2; long homogeneous chains built by recursion (60/101/130 await links, 55/70 coroutine-wrapper links, 40/55 asend links, 101/130 yield-from links, 120 mixed levels = 242 objects) probed at the innermost suspension; async-zip programs: a coroutine / types.coroutine generator / async generator parent (optionally under an outer coroutine) pulling alternately from 2..3 live sibling async generators through temporary __anext__ / asend / athrow awaitables (optionally with a coroutine level inside each sibling), monitored at every suspension point of the same run; and coroutine wrappers / asend / athrow awaitables of 2..3 alternating long-lived targets as extraction roots, each dropped while its target lives on. distinct = distinct (program, stop) descriptors; "
         "non-trivial = chain of >= 2 objects or with a leaf / wrapper / exhausted / running link")
 CONFIG = dict(
     coq=["C03"], level="proof",
@@ -110,6 +110,22 @@ class AwWrap:
 class AwRet:
     def __init__(self, it): self.it = it
     def __await__(self): return self.it
+def _val_agen():                  # stack-like objects used as the value sent through asend /
+    async def va():               # carried by the exception given to athrow
+        await trap()
+        yield 1
+    return va()                   # (unstarted: has ag_frame)
+def _val_coro():
+    async def vc():
+        await trap()
+    c = vc(); c.send(None)        # suspended: has cr_frame and cr_await
+    return c
+def _val_gen():
+    def vg():
+        yield 1
+    g = vg(); next(g)             # suspended: has gi_frame
+    return g
+MKVAL = {"agen": _val_agen, "coro": _val_coro, "gen": _val_gen}
 class CM:
     def __enter__(self): return self
     def __exit__(self, *a): return False
@@ -122,7 +138,8 @@ def cmg():
 def build_source(desc):
     """Source text of the program: functions n0..nD; `S(i, items)` records what node i waits on."""
     kinds = [desc["root"]] + [child_kind(l[0]) for l in desc["links"]]
-    modes = ["iter"] + [agen_mode(l[0]) if child_kind(l[0]) == "agen" else None for l in desc["links"]]
+    modes = ["iter"] + [(("recv" if len(l) > 1 and l[0] in ("asend", "yf_asend") else agen_mode(l[0]))
+                         if child_kind(l[0]) == "agen" else None) for l in desc["links"]]
     nodes = desc["nodes"]          # per node: [layout, pre, post]
     depth = len(kinds) - 1
     out = [PRELUDE]
@@ -140,6 +157,7 @@ def build_source(desc):
         wait = None
         if i < depth:
             edge = desc["links"][i][0]
+            val = desc["links"][i][1] if len(desc["links"][i]) > 1 else None
             j = i + 1
             e = edge[3:] if edge.startswith("yf_") else edge
             pfx = "await " if is_async else "yield from "
@@ -156,6 +174,11 @@ def build_source(desc):
             elif e == "afor":
                 body.append(f"o = n{j}(); S({i}, [('asend', None), ('agen', o)]); c = o")
                 wait = "afor"
+            elif e == "asend" and val:
+                body.append(f"o = n{j}()")
+                body.append(f"{pfx}o.asend(None)")       # prime: runs to `v = yield 0` without suspending
+                body.append(f"sv = MKVAL[{val!r}]()")
+                body.append(f"S({i}, [('asend', None), ('agen', o)]); c = o.asend(sv)")
             elif e in ("asend", "anext"):
                 call = "asend(None)" if e == "asend" else "__anext__()"
                 body.append(f"o = n{j}(); S({i}, [('asend', None), ('agen', o)]); c = o.{call}")
@@ -163,6 +186,9 @@ def build_source(desc):
                 body.append(f"o = n{j}()")
                 body.append(f"{pfx}o.asend(None)")       # runs to the first yield without suspending
                 call = "athrow(ValueError())" if e == "athrow" else "aclose()"
+                if e == "athrow" and val:
+                    body.append(f"ex = ValueError(); ex.payload = MKVAL[{val!r}](); ex.args = (ex.payload,)")
+                    call = "athrow(ex)"
                 body.append(f"S({i}, [('athrow', None), ('agen', o)]); c = o.{call}")
             else:
                 raise ValueError(edge)
@@ -206,6 +232,8 @@ def build_source(desc):
         if kind == "agen":
             if modes[i] == "iter":
                 pass
+            elif modes[i] == "recv":
+                body = ["v = yield 0"] + body + [f"S({i}, [])", "yield 1"]
             elif modes[i] == "athrow":
                 body = ["try:", "    yield 0", "except ValueError:"] + ["    " + s for s in body] + [f"    S({i}, [])", "    yield 1"]
             else:
@@ -370,6 +398,8 @@ def run_case(desc):
         return run_self(desc)
     if "awroot" in desc:
         return run_awroot(desc)
+    if "deep" in desc:
+        return run_deep(desc)
     r = Runner(desc)
     if stop == "closed":
         if r.kind == "agen":
@@ -529,6 +559,91 @@ async def ag_throw(tag):
         return res
 
 
+DEEP = [("await", 60), ("await", 101), ("await", 130), ("wrap", 55), ("wrap", 70), ("asend", 40), ("asend", 55),
+        ("yf", 101), ("yf", 130), ("mixed", 120)]
+
+
+def run_deep(desc):
+    """A chain of n homogeneous links built by recursion and suspended at its innermost trap."""
+    import stackscope
+
+    kind, n = desc["deep"]["kind"], desc["deep"]["n"]
+    objs = []
+    ns = {"REG": lambda *items: objs.extend(items)}
+    src = PRELUDE + """
+async def d_await(n):
+    if n == 0:
+        t = trap(); REG(('gen', t))
+        await t
+    else:
+        c = d_await(n - 1); REG(('coro', c))
+        await c
+async def d_wrap(n):
+    if n == 0:
+        t = trap(); REG(('gen', t))
+        await t
+    else:
+        c = d_wrap(n - 1); REG(('wrap', None), ('coro', c))
+        await AwWrap(c)
+async def d_asend(n):
+    if n == 0:
+        t = trap(); REG(('gen', t))
+        await t
+    else:
+        c = d_asend(n - 1); REG(('asend', None), ('agen', c))
+        await c.asend(None)
+    yield 0
+async def r_asend(n):
+    c = d_asend(n); REG(('asend', None), ('agen', c))
+    await c.asend(None)
+def d_yf(n):
+    if n == 0:
+        yield 'own'
+    else:
+        c = d_yf(n - 1); REG(('gen', c))
+        yield from c
+async def d_mixed(n):
+    if n == 0:
+        t = trap(); REG(('gen', t))
+        await t
+    elif n % 3 == 0:
+        c = d_mixed(n - 1); REG(('wrap', None), ('coro', c))
+        await AwWrap(c)
+    elif n % 3 == 1:
+        c = d_mixed(n - 1); REG(('coro', c))
+        await c
+    else:
+        c = m_agen(n - 1); REG(('asend', None), ('agen', c))
+        async for _v in c:
+            pass
+async def m_agen(n):
+    c = d_mixed(n); REG(('coro', c))
+    await c
+    yield 0
+"""
+    exec(compile(src, "<c03-deep>", "exec"), ns)
+    fn, tag = {"await": ("d_await", "coro"), "wrap": ("d_wrap", "coro"), "asend": ("r_asend", "coro"),
+               "yf": ("d_yf", "gen"), "mixed": ("d_mixed", "coro")}[kind]
+    x = ns[fn](n)
+    objs.append((tag, x))
+    x.send(None)
+
+    def thrower():
+        try:
+            x.throw(Probe())
+        except Probe as ex:
+            tb = ex.__traceback__.tb_next
+            out = []
+            while tb is not None:
+                out.append((tb.tb_frame, tb.tb_lineno))
+                tb = tb.tb_next
+            return out
+        except BaseException as ex:
+            return "other exception: %r" % (ex,)
+        return "the probe exception did not come back"
+    return observe(stackscope, x, objs, thrower)
+
+
 def run_self(desc):
     """A *running* link: a generator / coroutine / async generator whose body (directly or
     through a helper) calls extract() on itself; the built-in rule answers
@@ -666,7 +781,9 @@ def classify(desc, obs):
     labs = ["root:" + desc.get("root", "awaitable"), "depth=%d" % len(desc.get("links", [])),
             "stop:" + (desc["stop"] if isinstance(desc["stop"], str) else ("unstarted" if desc["stop"] < 0 else "suspended"))]
     for l in desc.get("links", []):
-        labs.append("edge:" + l[0])
+        labs.append("edge:" + l[0] + ("(" + l[1] + ")" if len(l) > 1 else ""))
+    if "deep" in desc:
+        labs.append("deep:%s/%d" % (desc["deep"]["kind"], desc["deep"]["n"]))
     if desc.get("term"):
         labs.append("term:" + desc["term"] + ("/" + desc["leaf"] if desc.get("leaf") else ""))
     if desc.get("monitor"):
@@ -684,14 +801,24 @@ def classify(desc, obs):
 
 
 # ------------------------------------------------------------------ generation
-def program(root, edges, term, rng, layouts=None, prepost=None, leaf=None):
+VALKINDS = ["agen", "coro", "gen"]
+VAL_EDGES = ("asend", "athrow", "yf_asend", "yf_athrow")
+
+
+def program(root, edges, term, rng, layouts=None, prepost=None, leaf=None, vals=None):
     n = len(edges) + 1
     nodes = []
     for i in range(n):
         lay = layouts[i] if layouts else rng.choice(LAYOUTS)
         pp = prepost[i] if prepost else [rng.random() < 0.3, rng.random() < 0.3]
         nodes.append([lay, bool(pp[0]), bool(pp[1])])
-    prog = {"root": root, "links": [[e] for e in edges], "term": term, "nodes": nodes}
+    links = []
+    for i, e in enumerate(edges):
+        v = None
+        if e in VAL_EDGES:
+            v = vals.get(i) if vals is not None else (rng.choice(VALKINDS) if rng.random() < 0.4 else None)
+        links.append([e, v] if v else [e])
+    prog = {"root": root, "links": links, "term": term, "nodes": nodes}
     if term == "leaf":
         prog["leaf"] = leaf or rng.choice(LEAFKINDS)
     return prog
@@ -751,6 +878,21 @@ def make_inputs(tier, seed):
                 reps = 2 if d == 1 else 1
                 for _ in range(reps):
                     yield from with_stops(program(root, edges, term, rng))
+    # asend(value) / athrow(exception carrying value) with stack-like values, for every parent kind
+    for root in roots:
+        for e in edges_for(root):
+            if e in VAL_EDGES:
+                for vk in VALKINDS:
+                    for term in ("trap", "leaf"):
+                        yield from with_stops(program(root, [e], term, rng, vals={0: vk}))
+    for root in roots:      # ... and one level further down
+        for e0 in edges_for(root):
+            for e in edges_for(child_kind(e0)):
+                if e in VAL_EDGES:
+                    yield from with_stops(program(root, [e0, e], "trap", rng, vals={1: rng.choice(VALKINDS)}))
+    # long homogeneous chains, probed at the innermost suspension
+    for kind, n in DEEP:
+        yield {"deep": {"kind": kind, "n": n}, "stop": 0}
     # every layout on the parent side of every edge kind (depth 1)
     for root in roots:
         for e in edges_for(root):
